@@ -242,6 +242,7 @@ func (m *Machine) callSSA2(caller *frame, pos token.Pos, fn *ssa.Function, args 
 	if m.depth > 400 {
 		m.abort("budget", "call depth > 400 in %s", fn.String())
 	}
+	m.curFn = fn.String()
 	fi := m.W.info(fn)
 	fr := &frame{m: m, caller: caller, fn: fn, info: fi, depth: m.depth}
 	fr.env = make([]Value, fi.n)
